@@ -15,6 +15,9 @@ SRC = {
     "lambda": "{pad}import os\n\n\ndef _log(v, x):\n    with open({log!r}, 'a') as h:\n        h.write('%d %r\\n' % (v, x))\n\n\nf = lambda x: (_log({v}, x), ['v{v}', x])[1]\n",
 }
 SRC["main"] = SRC["module"]
+# the two versions differ ONLY in the indentation of the last assignment (inside / after the empty loop)
+SRC["indent"] = ("{pad}import os\n\n\ndef f(x):\n    with open({log!r}, 'a') as h:\n        h.write('%r\\n' % (x,))\n"
+                 "    r = ['v1', x]\n    for _ in ():\n        pass\n{ind}r = ['v2', x]\n    return r\n")
 
 
 def main():
@@ -34,7 +37,7 @@ def main():
         else:
             d = os.path.join(work, "v%d_s%d" % (v, shift)); os.makedirs(d, exist_ok=True)
             path = os.path.join(d, "cachedmod.py")
-        src = SRC[kind].format(pad="\n" * shift, log=log, v=v)
+        src = SRC[kind].format(pad="\n" * shift, log=log, v=v, ind=("        " if v == 1 else "    "))
         with open(path, "w") as h: h.write(src)
         linecache.checkcache(path)
         return path, src
@@ -59,6 +62,11 @@ def main():
             elif op["op"] == "call":
                 before = os.path.getsize(log) if os.path.exists(log) else 0
                 rec["value"] = objs[op["i"]][1][op.get("s", 1)](op["k"])
+                after = os.path.getsize(log) if os.path.exists(log) else 0
+                rec["executed"] = after > before
+            elif op["op"] == "force":
+                before = os.path.getsize(log) if os.path.exists(log) else 0
+                rec["value"] = objs[op["i"]][1][op.get("s", 1)].call(op["k"])[0]
                 after = os.path.getsize(log) if os.path.exists(log) else 0
                 rec["executed"] = after > before
             elif op["op"] == "check":
